@@ -336,6 +336,52 @@ def gen_bal(rng):
     return " ".join(w)
 
 
+def gen_shape(rng, target):
+    """a subgrid with NON-CUBIC cells (dx != dy != dz) and a luminosity / total weight such that
+    L / (totweight * V) is the wanted normalisation factor"""
+    base = logu(rng, -1, 18)
+    r = rng.sample([0.37, 1.0, 2.5, 7.3, 0.11], 3)
+    sides = [base * x for x in r]
+    n = [rng.randint(1, 4) for _ in range(3)]
+    V = (sides[0] / n[0]) * (sides[1] / n[1]) * (sides[2] / n[2])
+    tw = logu(rng, 3, 7)
+    L = target * tw * V
+    return L, tw, sides, n
+
+
+def shape_tokens(L, tw, sides, n):
+    return [str(B(L)), str(B(tw))] + [str(B(x)) for x in sides] + [str(B(float(k))) for k in n]
+
+
+def gen_sg(rng):
+    """the subgrid-level wrappers: calculate_ionization_state(totweight, subgrid) directly, or
+    through a TemperatureCalculator whose luminosity was updated from L0 to L"""
+    target = gen_flux(rng)
+    if target == 0.0 or rng.random() < 0.5:
+        target = logu(rng, 6, 16)                # partially ionized .. strongly ionized cells
+    L, tw, sides, nn = gen_shape(rng, target)
+    n = gen_n(rng) or 1e8
+    T = gen_T(rng)
+    AHe = 0.0 if rng.random() < 0.5 else gen_AHe(rng)
+    kind, sp = gen_spectrum(rng)
+    tail = [str(B(n)), str(B(T)), str(B(AHe))] + sp
+    if rng.random() < 0.5:
+        return "sgcellspec " + " ".join(shape_tokens(L, tw, sides, nn) + tail)
+    L0 = L * rng.choice([0.1, 10.0, 3.7, 1.0, 1e-3])
+    return "sgionspec %d %d " % (rng.randint(0, 1), B(L0)) + " ".join(shape_tokens(L, tw, sides, nn) + tail)
+
+
+def gen_sgtemp(rng):
+    while True:
+        t = gen_temp(rng).split()
+        if t[0] == "tempspec":
+            break
+    target = vlib.bits2f(t[1]) or logu(rng, 8, 14)
+    L, tw, sides, nn = gen_shape(rng, target)
+    L0 = L * rng.choice([0.1, 10.0, 3.7, 1.0])
+    return "sgtempspec %d " % B(L0) + " ".join(shape_tokens(L, tw, sides, nn) + t[1:])
+
+
 def force_transition(rng, raw_op):
     """inside a history: sometimes switch the radiation off (exactly zero flux), make the cell a
     vacuum or drop the flux below the jH < 1e-20 shortcut, so that consecutive updates take
@@ -377,6 +423,8 @@ DEFAULT_AB = [0.1, 2.2e-4, 4.e-5, 3.3e-4, 5.e-5, 9.e-6]
 
 def sim_param(c):
     n, s, ab = c.get("ncell", 8), c.get("nsub", 2), c["ab"]
+    cells = c.get("cells", (n, n, n))            # non-cubic cells: e.g. (4, 2, 8) in the unit cube
+    subs = c.get("subs", (s, s, s))
     t = """SimulationBox:
   anchor: [0. m, 0. m, 0. m]
   sides: [1. m, 1. m, 1. m]
@@ -412,7 +460,7 @@ DensityGridWriter:
   padding: 3
 DensityGridWriterFields:
   Temperature: 1
-""" % (n, n, n, s, s, s, c.get("density", "100. cm^-3"), "true" if c["temperature"] else "false",
+""" % (cells[0], cells[1], cells[2], subs[0], subs[1], subs[2], c.get("density", "100. cm^-3"), "true" if c["temperature"] else "false",
        ab[0], ab[1], ab[2], ab[3], ab[4], ab[5], c["ev"], c.get("lum", "1.e40"))
     for ion in IONS:
         t += "  NeutralFraction%s: 1\n" % ion
@@ -535,11 +583,13 @@ def sim_cases(ctx):
         ab = [rng.choice([0.0, 1e-6, d]) for d in DEFAULT_AB]
         cases.append(dict(tag="mixed", ab=ab, temperature=rng.random() < 0.6, ev=rng.choice([20., 45., 60., 100.]),
                           lum=rng.choice(["1.e11", "1.e13", "1.e16"]), threads=rng.choice([1, 2]),
-                          ncell=rng.choice([8, 8, 16]) if ctx.thorough else 8))
+                          ncell=rng.choice([8, 8, 16]) if ctx.thorough else 8, **rng.choice(SHAPES)))
     return cases
 
 
 ELNAMES = ["He", "C", "N", "O", "Ne", "S"]
+# cell shapes in the unit cube: cubic, and three non-cubic ones (dx != dy != dz)
+SHAPES = [dict(), dict(cells=(4, 2, 8), subs=(2, 1, 2)), dict(cells=(2, 8, 4), subs=(1, 2, 2)), dict(cells=(16, 4, 4), subs=(2, 2, 2))]
 
 
 def sim_stream(ctx):
@@ -574,6 +624,26 @@ def sim_stream(ctx):
         for key, desc in bad:
             st["oracle_failures"] += 1
             ctx.violation(key, "whole-binary run (%s): %s" % (c["tag"], desc), replay_obj)
+    # the same physical set-up (hydrogen only, constant density, optically thin, no thermal
+    # balance) on cubic and on non-cubic cells: the mean neutral fraction must not depend on
+    # the cell shape beyond the discretisation (measured spread between shapes: <= 12 %, at
+    # this luminosity 7 %; a cell volume off by dz/dy = 1/4 changes it by a factor ~3)
+    xs = []
+    for shp in (SHAPES[0], SHAPES[1]):
+        c = dict(tag="shape", ab=[0.0] * 6, temperature=False, ev=20., lum="1.e12", photons=20000, iterations=3, **shp)
+        param = sim_param(c)
+        bad, data = run_case(binary, tool, param)
+        st["lines"] += 1
+        ctx.count()
+        ctx.branch("sim-shape-%s" % ("cubic" if not shp else "x".join(map(str, shp["cells"]))))
+        for key, desc in bad:
+            st["oracle_failures"] += 1
+            ctx.violation(key, "whole-binary run (cell shape): " + desc, {"stream": "whole-binary", "param": param, "args": ["--task-based"], "threads": 1})
+        xs.append((mean(data["NeutralFractionH"]) if data.get("NeutralFractionH") else None, param))
+    if xs[0][0] is not None and xs[1][0] is not None and abs(xs[0][0] - xs[1][0]) > 0.40 * max(xs[0][0], xs[1][0]):
+        st["oracle_failures"] += 1
+        ctx.violation("sim:cell-shape-dependence", "hydrogen-only optically thin run: mean x_H %r on 8x8x8 cubic cells vs %r on 4x2x8 non-cubic cells of the same box" % (xs[0][0], xs[1][0]),
+                      {"stream": "whole-binary", "param": xs[1][1], "shape_param": xs[0][1], "args": ["--task-based"], "threads": 1})
     # one radiation-hydrodynamics run (same normalisation glue in the second driver)
     from props import c12
     k = ctx.rng.randrange(1, 6)
@@ -617,7 +687,7 @@ def cmp(a, b, op):
 
 REQUIRED = ["h0-b0", "h0-b1", "h0-b2", "met-ne+", "met-ne0", "hhe-it0", "hhe-it1to5", "hhe-it6to10",
             "cell-t0", "cell-t1", "cell-t2-ne+", "cell-t3-ne+", "cell-t3-ne0",
-            "bal-ne+", "bal-ne0", "bal-ne+-cr",
+            "bal-ne+", "bal-ne0", "bal-ne+-cr", "sgcell-t2", "sgcell-t3", "sgion-t2", "sgion-t3", "sgtemp-t2",
             "temp-t0-special", "temp-t1-special", "temp-t2-low", "temp-t2-cap", "temp-t2-mid", "temp-t2-noiter"]
 
 
@@ -651,6 +721,8 @@ def run(ctx):
     raw += [gen_met(rng) for _ in range(1200 * nb)]
     raw += [gen_hhe(rng) for _ in range(2500 * nb)]
     raw += [gen_bal(rng) for _ in range(1000 * nb)]
+    raw += [gen_sg(rng) for _ in range(600 * nb)]
+    raw += [gen_sgtemp(rng) for _ in range(100 * nb)]
     # `cell` / `temp` updates come as HISTORIES on one re-used cell: newcell, then 3-6 updates
     # (hard field -> zero flux -> soft field -> vacuum -> ...); the harness requires after every
     # update that the re-used cell equals a fresh sentinel-filled cell given the same inputs
@@ -666,7 +738,7 @@ def run(ctx):
         k += m
     ctx.cov["rule"] = ("generated estimator sets: line spectra (1-5 frequencies between the H threshold and 4x (some up to 100x), with/without He-ionizing photons, exact thresholds) x flux 1e-5..1e18 and exactly 0, "
                        "n in {0} u 1e4..1e12 m^-3, T 1e2..1e5 K, He abundance 0..0.15 (incl. 0), metal abundances 0..1e-3, shipped Verner/charge-transfer/line-cooling tables; "
-                       "cell/temp updates run as histories of 3-6 updates on ONE re-used cell (with forced zero-flux / vacuum / sub-shortcut transitions), each compared with a fresh sentinel-filled cell; plus edge families (branch switch C=4e10, floor, jH below the 1e-20 shortcut, n_e = 0, all rates 0, zero iterations, clamps) and inputs outside the domain (x ops: correspondence only); "
+                       "subgrid-level wrappers on real DensitySubGrids with NON-CUBIC cells (sgcell/sgion/sgtemp: calculate_ionization_state(totweight, subgrid) and calculate_temperature(loop, totweight, subgrid) after update_luminosity(L0 -> L)); cell/temp updates run as histories of 3-6 updates on ONE re-used cell (with forced zero-flux / vacuum / sub-shortcut transitions), each compared with a fresh sentinel-filled cell; plus edge families (branch switch C=4e10, floor, jH below the 1e-20 shortcut, n_e = 0, all rates 0, zero iterations, clamps) and inputs outside the domain (x ops: correspondence only); "
                        "distinct = different raw op text; non-trivial = not a special-case shortcut")
     ctx.cov["tolerance_rel"] = REL
     # raw -> full (adds table values and the real balance function's values)
@@ -726,7 +798,7 @@ def run(ctx):
     ctx.cov["searched_not_proved"] = srch
     if srch["premise_off_in_domain"]:
         ctx.notes.append("checked premise of hHe_solve_range_checked raised inside the domain on %d cases (not a violation of C06 by itself: the range oracles decide; the theorem does not cover these inputs)" % srch["premise_off_in_domain"])
-    for k in ("h0 ", "h0m ", "met ", "hhe ", "bal ", "cell ", "temp "):
+    for k in ("h0 ", "h0m ", "met ", "hhe ", "bal ", "cell ", "temp ", "sgcell ", "sgion ", "sgtemp "):
         for op, a in zip(full, impl):
             if op.startswith(k):
                 ctx.sample({"op": op[:300], "impl": a[:300]}, cap=12)
@@ -749,6 +821,13 @@ def replay(ctx, path):
                 print("mean %s: abundance 0 -> %r, abundance 1e-9 -> %r" % (k, a, b2))
                 if abs(a - b2) > 1e-3 * max(abs(a), abs(b2)):
                     bad.append(("sim:zero-abundance-discontinuity", k))
+        if "shape_param" in obj and not bad:
+            bad2, data2 = run_case(binary, tool, obj["shape_param"], args=obj.get("args", ["--task-based"]), threads=1)
+            mean = lambda v: sum(v) / max(1, len(v))
+            a, b2 = mean(data["NeutralFractionH"]), mean(data2["NeutralFractionH"])
+            print("mean x_H: non-cubic cells (this parameter file) %r, cubic cells %r" % (a, b2))
+            if abs(a - b2) > 0.40 * max(a, b2):
+                bad.append(("sim:cell-shape-dependence", "mean x_H differs by more than 40 %"))
         for key, desc in bad:
             print("ORACLE %s %s" % (key, desc))
         print("REPRODUCED" if bad else "not reproduced")
@@ -758,6 +837,6 @@ def replay(ctx, path):
 
 MANIFEST = dict(
     category="proof",
-    text="Lean theorems over the reals about the generic-arithmetic model of IonizationStateCalculator / TemperatureCalculator: hydrogen closed form solves x^2-(2+C)x+1=0 (h0_solves_balance), lies in [1e-14,1] for every input (h0_range), is antitone in J and monotone in n*alpha (h0_antitone_J, h0_monotone_nalpha; exact within a branch, up to 5.1e-11 relative across the Taylor switch, where strict monotonicity is refuted by h0_switch_not_antitone); every metal fraction in [0,1] and stage sums <= 1 for non-negative rates and positive denominators (metals_range); one H/He loop body maps (0,1)x[0,1] into [0,1]^2 when ch >= 0 (hHe_iterate_range_partial); for EVERY balance function, tolerance and iteration count the returned temperature is 500 K or in [min(T_min, initial guess), 30000 K] (temperature_range); compute_cooling_and_heating_balance is modelled statement by statement (only LineCoolingData::get_cooling and the rate tables enter as values): heating and cooling >= 0 for every input (balance_nonneg), line-cooling abundances in [0, A_X] (abund_range), and for every balance function whose evaluations are physical the cell state after calculate_temperature has H/He fractions in [0,1] and coolants reset or physical through every special case, clamp and reset (temperature_state_physical; for the modelled balance: temperature_model_state_physical / _checked, balModel_ok); the whole H/He solve returns fractions in [0,1] whenever the premise flag offDom computed by the model run is false (hHe_solve_range_checked); the result of calculate_temperature does not depend on the coolant fractions stored in the cell before the call (cell_output_independent_of_previous_state). The same definitions instantiated at Float agree with the real static functions and calculate_temperature (shipped tables) to rel 1e-10; oracles on the implementation: finiteness, ranges, stage sums, T bounds, abort (forked child), H-only balance residual and monotonicity; the glue around the kernels (normalisation of the counters by the abundances, theorem normalise_zero_counter, statement text tied in both task-based drivers) through short whole-binary runs (--task-based with thermal balance on/off, abundance exactly 0 for each element, hard spectra; one --task-based-rhd radiation run) with the same oracles on the Gadget snapshot plus continuity at abundance 0 (0 vs 1e-9, same seed); and after every update of a 3-6 step history on ONE re-used cell: all 14 fractions and the temperature equal those of a fresh sentinel-filled (0.123) cell given the same inputs (outputs not reassigned on some branch).",
+    text="Lean theorems over the reals about the generic-arithmetic model of IonizationStateCalculator / TemperatureCalculator: hydrogen closed form solves x^2-(2+C)x+1=0 (h0_solves_balance), lies in [1e-14,1] for every input (h0_range), is antitone in J and monotone in n*alpha (h0_antitone_J, h0_monotone_nalpha; exact within a branch, up to 5.1e-11 relative across the Taylor switch, where strict monotonicity is refuted by h0_switch_not_antitone); every metal fraction in [0,1] and stage sums <= 1 for non-negative rates and positive denominators (metals_range); one H/He loop body maps (0,1)x[0,1] into [0,1]^2 when ch >= 0 (hHe_iterate_range_partial); for EVERY balance function, tolerance and iteration count the returned temperature is 500 K or in [min(T_min, initial guess), 30000 K] (temperature_range); the subgrid-level wrappers hand L*counter/(totweight*V) with V = prod side/ncell to the kernels and use the updated luminosity in both branches (wrapper_rate, cellVolume_fill, update_luminosity_sync, wrapper_h0_balance); compute_cooling_and_heating_balance is modelled statement by statement (only LineCoolingData::get_cooling and the rate tables enter as values): heating and cooling >= 0 for every input (balance_nonneg), line-cooling abundances in [0, A_X] (abund_range), and for every balance function whose evaluations are physical the cell state after calculate_temperature has H/He fractions in [0,1] and coolants reset or physical through every special case, clamp and reset (temperature_state_physical; for the modelled balance: temperature_model_state_physical / _checked, balModel_ok); the whole H/He solve returns fractions in [0,1] whenever the premise flag offDom computed by the model run is false (hHe_solve_range_checked); the result of calculate_temperature does not depend on the coolant fractions stored in the cell before the call (cell_output_independent_of_previous_state). The same definitions instantiated at Float agree with the real static functions and calculate_temperature (shipped tables) to rel 1e-10; oracles on the implementation: finiteness, ranges, stage sums, T bounds, abort (forked child), H-only balance residual and monotonicity; the glue around the kernels (normalisation of the counters by the abundances, theorem normalise_zero_counter, statement text tied in both task-based drivers) through short whole-binary runs (--task-based with thermal balance on/off, abundance exactly 0 for each element, hard spectra; one --task-based-rhd radiation run) with the same oracles on the Gadget snapshot plus continuity at abundance 0 (0 vs 1e-9, same seed); and after every update of a 3-6 step history on ONE re-used cell: all 14 fractions and the temperature equal those of a fresh sentinel-filled (0.123) cell given the same inputs (outputs not reassigned on some branch).",
     note="PARTIAL: that the H/He premise flag (0 < h0old < 1 and ch >= 0 in every executed body) stays false on the whole domain is checked on every generated case (count reported, 0 in domain), not proved; convergence of the H/He fixed point within 20 iterations (no cmac_error), ch >= 0 for the shipped tables and absence of aborts in calculate_temperature are searched, not proved. Trusted: Lean kernel + 3 axioms; hand model (tied by the Float correspondence); exact-arithmetic theorems (rounding only bounded empirically); line cooling / heating / rate tables enter as values computed by the real classes; cmac_assert compiled out.",
     technique="Lean 4 proofs (field_simp / nlinarith / sqrt lemmas, induction over the iteration count with an uninterpreted balance function) + Float differential correspondence against the real C++ with forked-child abort capture")
